@@ -76,7 +76,15 @@ type verifC08Env struct {
 	rnd     *rand.Rand
 	scratch []byte
 	closed  bool
+	// property-level observations on the real code, independent of the specification's state:
+	delivered map[[2]int]int // (shard, event) -> buckets handed to the preprocessor that carried it
+	facts     []verifC08Fact // broken row-level facts seen so far
 }
+
+// verifC08Fact is a violation of the property observed on the real code alone (no comparison with the
+// specification): a row in a bucket stamped later than the bucket, a timestamp that is not a multiple of
+// the resolution, an event delivered twice or never.
+type verifC08Fact struct{ sig, msg string }
 
 // Specification metrics 50..69 / 70..89 are "hardware" metrics (MetricID <= -1000, fast / slow): their
 // resolution is not the metric's own (60 here) but the one configured in the shard.
@@ -214,7 +222,7 @@ func verifC08NewEnv(cfg *verifC08Config, name string, cache *pcache.MappingsCach
 		}
 		verifC08Metas = metas
 	}
-	env := &verifC08Env{name: name, mapped: mapped, agent: agent, metas: verifC08Metas, rnd: rand.New(uint64(salt))}
+	env := &verifC08Env{name: name, mapped: mapped, agent: agent, metas: verifC08Metas, rnd: rand.New(uint64(salt)), delivered: map[[2]int]int{}}
 	for _, ms := range cfg.Metrics {
 		m := env.metas[ms.ID]
 		// shard selection of the real code must be the specification's
@@ -301,6 +309,7 @@ func (e *verifC08Env) project() (verifC08State, error) {
 			// peek: take and put back (single-threaded driver, capacity 1)
 			b := <-sh.BucketsToPreprocess
 			ch = int(b.Time)
+			e.facts = append(e.facts, verifC08RowFacts(b)...) // it has been handed to sending: the row facts must hold
 			sh.BucketsToPreprocess <- b
 		}
 		st.Ch = append(st.Ch, ch)
@@ -379,25 +388,41 @@ func verifC08WantBucket(v any) verifC08Bucket {
 	return b
 }
 
-// bucket projects a bucket handed to the preprocessor and checks the row-level facts of the
-// property on EVERY row (also rows of metrics the model does not number).
-func (e *verifC08Env) bucket(b *data_model.MetricsBucket) (verifC08Bucket, []string) {
-	res := verifC08Bucket{Time: int(b.Time), Items: [][2]int{}}
-	var bad []string
+// verifC08RowFacts checks the row-level facts of the property on EVERY row of a bucket handed to sending
+// (also rows of metrics the model does not number).
+func verifC08RowFacts(b *data_model.MetricsBucket) []verifC08Fact {
+	var facts []verifC08Fact
 	for _, it := range b.MultiItems {
 		if it.Key.Timestamp > b.Time {
-			bad = append(bad, fmt.Sprintf("row of metric %d stamped %d in bucket %d (row from the future)", it.Key.Metric, it.Key.Timestamp, b.Time))
+			facts = append(facts, verifC08Fact{"prop:NotEarly", fmt.Sprintf("row of metric %d stamped %d delivered in the earlier bucket %d (bucket.Time < Key.Timestamp)", it.Key.Metric, it.Key.Timestamp, b.Time)})
 		}
 		if it.MetricMeta != nil && !format.HardwareMetric(it.MetricMeta.MetricID) && it.MetricMeta.EffectiveResolution > 1 &&
 			it.Key.Timestamp%uint32(it.MetricMeta.EffectiveResolution) != 0 {
-			bad = append(bad, fmt.Sprintf("row of metric %d resolution %d stamped %d: not a multiple", it.Key.Metric, it.MetricMeta.EffectiveResolution, it.Key.Timestamp))
+			facts = append(facts, verifC08Fact{"prop:Rounded", fmt.Sprintf("row of metric %d resolution %d stamped %d: not a multiple", it.Key.Metric, it.MetricMeta.EffectiveResolution, it.Key.Timestamp)})
 		}
+	}
+	return facts
+}
+
+// bucket projects a bucket taken by the preprocessor (shard si, 0-based), records the facts it breaks and
+// counts the deliveries of every event.
+func (e *verifC08Env) bucket(si int, b *data_model.MetricsBucket) (verifC08Bucket, []string) {
+	res := verifC08Bucket{Time: int(b.Time), Items: [][2]int{}}
+	var bad []string
+	e.facts = append(e.facts, verifC08RowFacts(b)...)
+	for _, it := range b.MultiItems {
 		id, ok := e.itemID(&it.Key)
 		if !ok {
 			bad = append(bad, fmt.Sprintf("row outside the model in bucket %d: metric %d", b.Time, it.Key.Metric))
 			continue
 		}
 		res.Items = append(res.Items, [2]int{id, int(it.Key.Timestamp)})
+		if id > 0 {
+			e.delivered[[2]int{si + 1, id}]++
+			if n := e.delivered[[2]int{si + 1, id}]; n > 1 {
+				e.facts = append(e.facts, verifC08Fact{"prop:ExactlyOnce", fmt.Sprintf("event %d of shard %d delivered in %d buckets (last: %d)", id, si+1, n, b.Time)})
+			}
+		}
 	}
 	res.Items = verifC08SortItems(res.Items)
 	return res, bad
@@ -526,6 +551,7 @@ type verifC08Runner struct {
 	res   *verifkit.Result
 	cache *pcache.MappingsCache
 	res4  map[int]int // specification metric -> resolution
+	spec4 map[int]verifC08MetricSpec
 }
 
 func verifC08Clock(sec int, half bool, r *rand.Rand) time.Time {
@@ -563,6 +589,22 @@ func (rn *verifC08Runner) replay(t *testing.T, bi int, beh []verifkit.Step) (ok 
 	mismatch := func(i int, env *verifC08Env, want, got any, note string) {
 		rn.res.Mismatch(verifkit.Mismatch{Beh: beh, Step: i, Want: want, Got: got, Sig: "s2i:" + beh[i].Act(),
 			Note: fmt.Sprintf("agent %s: %s", env.name, note)})
+	}
+	// the property observed on the real code alone (no comparison with the specification)
+	factsOK := func(i int) bool {
+		for _, env := range envs {
+			if len(env.facts) != 0 {
+				f := env.facts[0]
+				var msgs []string
+				for _, x := range env.facts {
+					msgs = append(msgs, x.msg)
+				}
+				rn.res.Mismatch(verifkit.Mismatch{Beh: beh, Step: i, Want: "property " + f.sig[5:] + " on every bucket handed to sending", Got: msgs, Sig: f.sig,
+					Note: fmt.Sprintf("agent %s: %s", env.name, f.msg)})
+				return false
+			}
+		}
+		return true
 	}
 	for i, st := range beh {
 		act := st.Act()
@@ -610,7 +652,10 @@ func (rn *verifC08Runner) replay(t *testing.T, bi int, beh []verifkit.Step) (ok 
 				sh := env.agent.Shards[st.Int("s")-1]
 				select {
 				case b := <-sh.BucketsToPreprocess:
-					got, bad := env.bucket(b)
+					got, bad := env.bucket(st.Int("s")-1, b)
+					if !factsOK(i) {
+						return false
+					}
 					if len(bad) != 0 {
 						mismatch(i, env, want, got, strings.Join(bad, "; "))
 						return false
@@ -636,21 +681,42 @@ func (rn *verifC08Runner) replay(t *testing.T, bi int, beh []verifkit.Step) (ok 
 			for _, env := range envs {
 				got := make([][]verifC08Bucket, len(env.agent.Shards))
 				badAll := make([][]string, len(env.agent.Shards))
+				raw := make([][]*data_model.MetricsBucket, len(env.agent.Shards))
 				var wg sync.WaitGroup
 				for si, sh := range env.agent.Shards {
 					wg.Add(1)
 					go func() { // the preprocessor: takes buckets until the channel is closed
 						defer wg.Done()
 						for b := range sh.BucketsToPreprocess {
-							pb, bad := env.bucket(b)
-							got[si] = append(got[si], pb)
-							badAll[si] = append(badAll[si], bad...)
+							raw[si] = append(raw[si], b)
 						}
 					}()
 				}
 				env.agent.FlushAllData()
 				wg.Wait()
 				env.closed = true
+				for si := range raw {
+					for _, b := range raw[si] {
+						pb, bad := env.bucket(si, b)
+						got[si] = append(got[si], pb)
+						badAll[si] = append(badAll[si], bad...)
+					}
+				}
+				// after the shutdown flush every event the shard accepted has been handed to sending
+				for _, prev := range beh[:i] {
+					if prev.Act() != "Event" {
+						continue
+					}
+					ms := rn.spec4[prev.Int("m")]
+					for k, sh := range []int{ms.Sh, ms.Sh2} {
+						if ok := prev.Bool([]string{"ok1", "ok2"}[k]); ok && sh != 0 && env.delivered[[2]int{sh, prev.Int("id")}] == 0 {
+							env.facts = append(env.facts, verifC08Fact{"prop:ExactlyOnce", fmt.Sprintf("event %d accepted by shard %d was never handed to sending", prev.Int("id"), sh)})
+						}
+					}
+				}
+				if !factsOK(i) {
+					return false
+				}
 				for si := range env.agent.Shards {
 					want := []verifC08Bucket{}
 					if si < len(outs) {
@@ -692,6 +758,9 @@ func (rn *verifC08Runner) replay(t *testing.T, bi int, beh []verifkit.Step) (ok 
 		want := verifC08WantState(post)
 		for _, env := range envs {
 			got, err := env.project()
+			if !factsOK(i) {
+				return false
+			}
 			if err != nil {
 				rn.res.Count("driver_errors", 1)
 				rn.res.Note("behaviour %d step %d agent %s: %v", bi, i, env.name, err)
@@ -710,17 +779,42 @@ func (rn *verifC08Runner) replay(t *testing.T, bi int, beh []verifkit.Step) (ok 
 	return true
 }
 
+// verifC08Consts reads the constants the specification is instantiated with from the code.  The gap
+// literal has no name: it is measured, after checking that the gap is CurrentTime - SendTime - c.
+func verifC08Consts(res *verifkit.Result) {
+	res.Consts["superQueueLen"] = superQueueLen
+	res.Consts["superQueueFutureSlots"] = superQueueFutureSlots
+	probe := &Shard{CurrentTime: 100000, SendTime: 100000}
+	g0 := probe.gapInReceivingQueueLocked()
+	linear := true
+	for _, d := range [][2]uint32{{100000, 99000}, {100500, 100495}, {200000, 200009}, {86400000, 86399994}, {5000, 5130}} {
+		p := &Shard{CurrentTime: d[0], SendTime: d[1]}
+		if p.gapInReceivingQueueLocked() != int64(d[0])-int64(d[1])+g0 {
+			linear = false
+		}
+	}
+	res.Consts["gapLinear"] = linear
+	res.Consts["spread"] = int64(superQueueLen-superQueueFutureSlots) + g0
+	res.Consts["agentWindowMs"] = int64(data_model.AgentWindow / time.Millisecond)
+	key := data_model.Key{Metric: format.BuiltinMetricMetaTimingErrors.MetricID}
+	a := &Agent{shardByMetricCount: 2, Shards: []*Shard{{ShardNum: 0}, {ShardNum: 1}}}
+	s1, _, _ := a.shard(&key, format.BuiltinMetricMetaTimingErrors, nil)
+	res.Consts["timingShard"] = s1.ShardNum + 1
+}
+
+// TestVerifC08Consts only reports the constants; the check instantiates the specification with them.
+func TestVerifC08Consts(t *testing.T) {
+	verifkit.Gate(t)
+	res := verifkit.NewResult()
+	defer res.Write(t)
+	verifC08Consts(res)
+}
+
 func TestVerifC08Replay(t *testing.T) {
 	verifkit.Gate(t)
 	res := verifkit.NewResult()
 	defer res.Write(t)
-	// constants of the code the specification instance must agree with
-	probe := &Shard{CurrentTime: 1000, SendTime: 1000}
-	res.Consts["superQueueLen"] = superQueueLen
-	res.Consts["superQueueFutureSlots"] = superQueueFutureSlots
-	res.Consts["spread"] = int64(superQueueLen-superQueueFutureSlots) + probe.gapInReceivingQueueLocked()
-	res.Consts["agentWindowMs"] = int64(data_model.AgentWindow / time.Millisecond)
-	res.Consts["timingShard"] = 0
+	verifC08Consts(res)
 	var cfg *verifC08Config
 	var behs [][]verifkit.Step
 	first := true
@@ -742,25 +836,15 @@ func TestVerifC08Replay(t *testing.T) {
 	if cfg == nil {
 		t.Fatalf("no config line")
 	}
-	if cfg.QLen != superQueueLen || cfg.Future != superQueueFutureSlots {
+	if cfg.QLen != superQueueLen || cfg.Future != superQueueFutureSlots || int64(cfg.Spread) != res.Consts["spread"].(int64) || cfg.Timing != res.Consts["timingShard"].(int) {
 		res.Count("driver_errors", 1)
-		res.Note("specification instance %d/%d does not match the code %d/%d", cfg.QLen, cfg.Future, superQueueLen, superQueueFutureSlots)
+		res.Note("specification instance %d/%d/%d does not match the code %d/%d/%v", cfg.QLen, cfg.Future, cfg.Spread, superQueueLen, superQueueFutureSlots, res.Consts["spread"])
 		return
 	}
-	rn := &verifC08Runner{cfg: cfg, res: res, cache: verifC08FullCache(cfg.T0), res4: map[int]int{}}
+	rn := &verifC08Runner{cfg: cfg, res: res, cache: verifC08FullCache(cfg.T0), res4: map[int]int{}, spec4: map[int]verifC08MetricSpec{}}
 	for _, ms := range cfg.Metrics {
 		rn.res4[ms.ID] = ms.Res
-	}
-	{ // where does __timing_errors go
-		env, err := verifC08NewEnv(cfg, "probe", rn.cache, true, 0, 2, false)
-		if err != nil {
-			res.Count("driver_errors", 1)
-			res.Note("%v", err)
-			return
-		}
-		key := data_model.Key{Metric: format.BuiltinMetricMetaTimingErrors.MetricID}
-		s1, _, _ := env.agent.shard(&key, format.BuiltinMetricMetaTimingErrors, nil)
-		res.Consts["timingShard"] = s1.ShardNum + 1
+		rn.spec4[ms.ID] = ms
 	}
 	for bi, b := range behs {
 		if len(b) == 0 {
